@@ -1068,7 +1068,9 @@ func (val Value) HasElement(elem Value) Value {
 	if !ty.IsSetType() {
 		panic("not a set type")
 	}
-	if !elem.IsKnown() {
+	if !elem.IsWhollyKnown() {
+		// An element with an unknown value anywhere inside it is equivalent
+		// to no member yet, but may turn out to be one.
 		return unknownResult
 	}
 	noMatchResult := False
